@@ -9,7 +9,9 @@ CLAIMS = {
    "DaemonLifecycle.tla (daemon thread x 0..3 shutdown callers x peer state) is model-checked: after a completed shutdown request the "
    "thread exits and wait() is Ok (safety + liveness under fairness), disconnect without shutdown is an error, the peer sees EOF. Every "
    "complete schedule is driven through the instrumented hold points and a blocking handler of a real daemon; TLC replays the executed "
-   "commands as model actions and compares wait(), peer EOF, restart, repeated shutdown, thread count; serve() is cut at every byte offset.",
+   "commands as model actions and compares wait(), peer EOF, restart, repeated shutdown, thread count; serve() is cut at every byte offset. "
+   "Also: the daemon thread blocked in the write of a reply (flooding peer), wait() entered before the shutdown requests, and wait() while "
+   "other callers are parked between the two steps of their request.",
    "TLA+ model checking incl. liveness (TLC) + schedule replay over hold points + TLC trace validation"),
  "C12": ("model_checking", "2/C12",
    "VringConc.tla (worker loop x daemon thread micro-steps x guest kicks over level-triggered epoll/eventfd) is model-checked for all "
@@ -41,8 +43,10 @@ CLAIMS = {
  "C17": ("model_checking", "2/C17",
    "Routing.tla: TLC checks the routing functions over every assignment of 1..3/4 queues to 1..3 masks (owner uniqueness, rank = slice "
    "index, no collision with the exit id) and every configuration is instantiated as a real daemon whose every queue is kicked; TLC "
-   "validates (thread, event id, ring slice) of each dispatch and the fate of custom listener ids over the 64-bit range.",
-   "TLA+ model checking (TLC) over all small configurations + replay + TLC trace validation"),
+   "validates (thread, event id, ring slice) of each dispatch and the fate of custom listener ids over the 64-bit range (also several "
+   "listeners under one id, unregistration). Apalache checks the same routing invariants symbolically for all configurations up to 8 queues x "
+   "3 masks (12 x 4 thorough); rings are registered with their workers on four different paths.",
+   "TLA+ model checking (TLC) over all small configurations + symbolic check of the routing invariants (Apalache) + replay + TLC trace validation"),
  "C19": ("exploration", "2/C19",
    "KernBackend.tla carries the UAPI (ioctl numbers, argument layouts, IOTLB v1/v2 selection by acknowledged features, refusal classes) "
    "and is cross-checked by TLC against a C program compiled with the installed <linux/vhost.h>; TLC enumerates operations x classes x "
@@ -52,12 +56,17 @@ CLAIMS = {
  "C09": ("fault_enumeration", "2/C09",
    "Every connection of the TLC-enumerated hostile-input spaces (request server, frontend reply readers, backend-request channel, GPU "
    "proxy; descriptors on headers, bodies, beyond the limit, on messages that take none) ends in a teardown at which the process's open "
-   "descriptor identities are compared with the snapshot taken before; TLC judges leak / foreign close / double delivery per trace.",
+   "descriptor identities are compared with the snapshot taken before; TLC judges leak / foreign close / double delivery per trace. "
+   "Daemon part: FdFate.tla (kick/call/error slots of the rings; descriptors of five kinds occupy, are replaced, dropped, refused, survive the "
+   "connection) is model-checked and every transition replayed on a real daemon; after every letter each descriptor sent so far must be held "
+   "by the daemon iff it occupies a slot, none after the daemon is dropped.",
    "TLC-enumerated fault space replayed on the code + TLC trace validation of descriptor accounting"),
  "C10": ("model_checking", "2/C10",
    "TxnAtomicity.tla is model-checked (all interleavings of 2-3 callers over lock, hold points and peer; safety, deadlock-freedom, "
    "termination under fairness); every schedule TLC finds is driven through the instrumented hold points of the real endpoints and the "
-   "recorded event order is validated by TLC against the specification; uncontrolled stress traces are validated the same way.",
+   "recorded event order is validated by TLC against the specification; uncontrolled stress traces are validated the same way. Every public "
+   "operation of the three proxies takes its turn; a caller dying inside its transaction (Crash action) and temporary receive conditions while "
+   "waiting for an answer are part of the schedules.",
    "TLA+ model checking of all interleavings (TLC) + schedule replay over hold points + TLC trace validation"),
  "C05": ("exploration", "2/C05",
    "Grammar-aware hostile inputs are enumerated by TLC (MC_Hostile: per request code, header mutations, size classes, every single violated "
